@@ -246,8 +246,10 @@ CR / LF and every body of the form
 
   preamble · NL `--boundary` NL headers NL NL payload … NL `--boundary--` · ep
 
-(`bodyOf nl bnd ep pr lead parts`): an arbitrary preamble `pr` that does not contain `--boundary`
-(`PreOk`; for bare-LF bodies it must not end in CR, which would merge with the delimiter's LF; with
+(`bodyOf nl bnd ep pr lead parts`): an arbitrary preamble `pr` inside which `preamble_re` matches
+nowhere (`PreFree`, decidable: the first delimiter the decoder can find is the intended one — the
+preamble may contain line breaks, dashes and even `--boundary` as long as that occurrence is not a
+delimiter line; implied by `PreOk`, "does not contain `--boundary`", see `preOk_preFree`; with
 `lead = false` the body starts directly with `--boundary`, as browsers send it); any list of parts
 satisfying the decidable predicate `ValidPart nl` (fields and files in any order, repeated names,
 empty / body-less / non-empty payloads made of line-break runs, dashes, boundary prefixes and
@@ -261,15 +263,22 @@ headers, byte-exact payload — as decoding the body in one piece, namely the gi
 `_search_position` in PREAMBLE and PART, the hold-back in `_parse_data`, DATA_START waiting, a chunk
 ending between the CR and LF of a delimiter line, several parts in one chunk … are all covered. -/
 theorem decode_chunk_independent_nl {nl : Nl} {bnd : Bytes} (hb : BoundaryOk bnd) (ep pr : Bytes)
-    (lead : Bool) (hpre : PreOk nl bnd pr lead) (parts : List Part) (hv : ∀ p ∈ parts, ValidPart nl bnd p)
+    (lead : Bool) (parts : List Part) (hpre : PreFree nl bnd ep pr lead parts)
+    (hv : ∀ p ∈ parts, ValidPart nl bnd p)
     (chunks : List Bytes) (hjoin : chunks.flatten = bodyOf nl bnd ep pr lead parts) :
     (decodeChunks bnd none none chunks).err = none ∧
     partsOf (decodeChunks bnd none none chunks).events =
       partsOf (decodeChunks bnd none none [bodyOf nl bnd ep pr lead parts]).events ∧
     partsOf (decodeChunks bnd none none chunks).events = parts.map decodedPart := by
-  have h1 := decode_chunks_full_lemma (nl := nl) (ep := ep) hb hpre parts hv chunks hjoin
-  have h2 := decode_chunks_full_lemma (nl := nl) (ep := ep) hb hpre parts hv [bodyOf nl bnd ep pr lead parts] (by simp)
+  have h1 := decode_chunks_full_lemma (nl := nl) (ep := ep) hb parts hpre hv chunks hjoin
+  have h2 := decode_chunks_full_lemma (nl := nl) (ep := ep) hb parts hpre hv [bodyOf nl bnd ep pr lead parts] (by simp)
   exact ⟨h1.1, by rw [h1.2, h2.2], h1.2⟩
+
+/-- a preamble that does not contain `--boundary` at all (and, for bare-LF bodies, does not end in
+CR, which would merge with the delimiter's LF) is admissible, whatever follows -/
+theorem preOk_preFree {nl : Nl} {bnd : Bytes} (hb : BoundaryOk bnd) (ep pr : Bytes) (lead : Bool)
+    (parts : List Part) (hpre : PreOk nl bnd pr lead) : PreFree nl bnd ep pr lead parts :=
+  preFree_of_preOk hb parts hpre
 
 /-- **decode_chunk_independent (CRLF-delimited bodies)**: the case `nl = CRLF`, where the payload is
 unrestricted apart from `--boundary` at a line start (`payloadOkNl_crlf`) -/
@@ -280,7 +289,7 @@ theorem decode_chunk_independent_partial {bnd : Bytes} (hb : BoundaryOk bnd) (ep
     partsOf (decodeChunks bnd none none chunks).events =
       partsOf (decodeChunks bnd none none [bodyOf .crlf bnd ep pr lead parts]).events ∧
     partsOf (decodeChunks bnd none none chunks).events = parts.map decodedPart :=
-  decode_chunk_independent_nl hb ep pr lead hpre parts hv chunks hjoin
+  decode_chunk_independent_nl hb ep pr lead parts (preFree_of_preOk hb parts hpre) hv chunks hjoin
 
 /-- the CRLF side conditions are the ones stated before the generalisation: any payload without
 `--boundary` at a line start, any preamble without `--boundary` -/
@@ -329,6 +338,19 @@ example :
       str "--b\rContent-Disposition: form-data; name=\"a\"\r\r--b--" := by
   decide +kernel
 
+/-- non-vacuity for `PreFree`: preambles that contain `--bound` without it being a delimiter line are
+admissible (they are not `PreOk`); one with a real delimiter line (`--bound` + white space + line break,
+or `--bound--`) is not -/
+example :
+    PreFree .crlf (str "bound") stdEp (str "x --boundX\r\n--bound y\r\n--bound-") true
+      [⟨false, some ['a'], none, [], str "v"⟩] ∧
+    ¬ PreOk .crlf (str "bound") (str "x --boundX\r\n--bound y\r\n--bound-") true ∧
+    PreFree .lf (str "bound") [] (str "--bound\tz\n--bounds") true [] ∧
+    ¬ PreFree .crlf (str "bound") stdEp (str "x --bound \t\r\nfoo") true [] ∧
+    ¬ PreFree .crlf (str "bound") stdEp (str "x--bound--") true [] ∧
+    ¬ PreFree .crlf (str "bound") stdEp (str "x--bound \t") true [] := by
+  decide +kernel
+
 /-- **formParse_read_independent (one level up), for all three delimiter conventions.** For every
 such body, `MultiPartParser(buffer_size=k).parse` over a stream that delivers short reads returns the
 same form fields and files for **every** `buffer_size` and **every** read schedule: the fields (name,
@@ -336,20 +358,20 @@ value decoded with the part's charset) and files (name, filename, headers, byte-
 parts, in order (`formOfParts`); a part whose charset cannot be determined fails the same way for
 every schedule. -/
 theorem formParse_read_independent_nl {nl : Nl} {bnd : Bytes} (hb : BoundaryOk bnd) (ep pr : Bytes)
-    (lead : Bool) (hpre : PreOk nl bnd pr lead) (parts : List Part) (hv : ∀ p ∈ parts, ValidPart nl bnd p)
-    (bufSize : Nat) (sched : List Nat) :
+    (lead : Bool) (parts : List Part) (hpre : PreFree nl bnd ep pr lead parts)
+    (hv : ∀ p ∈ parts, ValidPart nl bnd p) (bufSize : Nat) (sched : List Nat) :
     formParse bnd none none bufSize sched (bodyOf nl bnd ep pr lead parts) =
       formOfParts ([], []) (parts.map decodedPart) :=
-  formParse_lemma (nl := nl) (ep := ep) hb hpre parts hv bufSize sched
+  formParse_lemma (nl := nl) (ep := ep) hb parts hpre hv bufSize sched
 
 /-- in particular any two buffer sizes / schedules agree, e.g. byte-at-a-time and one full read -/
 theorem formParse_bufsize_irrelevant_nl {nl : Nl} {bnd : Bytes} (hb : BoundaryOk bnd) (ep pr : Bytes)
-    (lead : Bool) (hpre : PreOk nl bnd pr lead) (parts : List Part) (hv : ∀ p ∈ parts, ValidPart nl bnd p)
-    (b1 b2 : Nat) (s1 s2 : List Nat) :
+    (lead : Bool) (parts : List Part) (hpre : PreFree nl bnd ep pr lead parts)
+    (hv : ∀ p ∈ parts, ValidPart nl bnd p) (b1 b2 : Nat) (s1 s2 : List Nat) :
     formParse bnd none none b1 s1 (bodyOf nl bnd ep pr lead parts) =
       formParse bnd none none b2 s2 (bodyOf nl bnd ep pr lead parts) := by
-  rw [formParse_read_independent_nl hb ep pr lead hpre parts hv,
-    formParse_read_independent_nl hb ep pr lead hpre parts hv]
+  rw [formParse_read_independent_nl hb ep pr lead parts hpre hv,
+    formParse_read_independent_nl hb ep pr lead parts hpre hv]
 
 /-- **formParse_read_independent (CRLF-delimited bodies)** -/
 theorem formParse_read_independent {bnd : Bytes} (hb : BoundaryOk bnd) (ep pr : Bytes) (lead : Bool)
@@ -357,7 +379,7 @@ theorem formParse_read_independent {bnd : Bytes} (hb : BoundaryOk bnd) (ep pr : 
     (bufSize : Nat) (sched : List Nat) :
     formParse bnd none none bufSize sched (bodyOf .crlf bnd ep pr lead parts) =
       formOfParts ([], []) (parts.map decodedPart) :=
-  formParse_read_independent_nl hb ep pr lead hpre parts hv bufSize sched
+  formParse_read_independent_nl hb ep pr lead parts (preFree_of_preOk hb parts hpre) hv bufSize sched
 
 /-- **formParse_bufsize_irrelevant (CRLF-delimited bodies)** -/
 theorem formParse_bufsize_irrelevant {bnd : Bytes} (hb : BoundaryOk bnd) (ep pr : Bytes) (lead : Bool)
@@ -365,7 +387,7 @@ theorem formParse_bufsize_irrelevant {bnd : Bytes} (hb : BoundaryOk bnd) (ep pr 
     (b1 b2 : Nat) (s1 s2 : List Nat) :
     formParse bnd none none b1 s1 (bodyOf .crlf bnd ep pr lead parts) =
       formParse bnd none none b2 s2 (bodyOf .crlf bnd ep pr lead parts) :=
-  formParse_bufsize_irrelevant_nl hb ep pr lead hpre parts hv b1 b2 s1 s2
+  formParse_bufsize_irrelevant_nl hb ep pr lead parts (preFree_of_preOk hb parts hpre) hv b1 b2 s1 s2
 
 /-- non-vacuity / sanity: a field and a file, read one byte at a time -/
 example :
@@ -390,13 +412,106 @@ example :
       some ([(some ['a'], "v\r-".toList)], []) := by
   decide +kernel
 
+/-! ### P1 with arbitrary header blocks -/
+
+/-- **decode_chunk_independent, arbitrary header blocks.** The most general form: a part is given by
+the raw bytes of its header block and its payload (`RawPart`), and must satisfy the decidable
+predicate `RawOk nl bnd`:
+
+* the header block starts with a byte that is not white space (so not with a line break);
+* its first blank line is the `NL NL` that ends it (no earlier blank line — inside the block any mix
+  of CRLF / LF / CR line breaks, folded continuation lines, white space around names, colons and
+  values, lines without a colon, any header order and letter case are allowed);
+* the decoder makes a Field / File event of it (`headEvent`, i.e. `_parse_headers` succeeds, a
+  Content-Disposition header is present and `parse_options_header` accepts it — the name may even be
+  missing);
+* the payload has no line starting with `--boundary` and is free of the other newline kind.
+
+For every boundary without CR / LF, every admissible preamble (`PreFreeR`), every list of such parts,
+every `ep`, every line-break convention `nl` of the delimiter lines and **every** chunking of the
+body: decoding chunk by chunk raises nothing and yields the same parts as decoding in one piece,
+namely `RawPart.out` of each part (the part `next_event` reports for the header block, with the
+payload). The theorems for `Name: value` header lines above are the instance `rawOf` of this one. -/
+theorem decode_chunk_independent_raw {nl : Nl} {bnd : Bytes} (hb : BoundaryOk bnd) (ep pr : Bytes)
+    (lead : Bool) (parts : List RawPart) (hpre : PreFreeR nl bnd ep pr lead parts)
+    (hv : ∀ p ∈ parts, RawOk nl bnd p)
+    (chunks : List Bytes) (hjoin : chunks.flatten = bodyOfR nl bnd ep pr lead parts) :
+    (decodeChunks bnd none none chunks).err = none ∧
+    partsOf (decodeChunks bnd none none chunks).events =
+      partsOf (decodeChunks bnd none none [bodyOfR nl bnd ep pr lead parts]).events ∧
+    partsOf (decodeChunks bnd none none chunks).events = parts.map RawPart.out := by
+  have h1 := decode_chunks_full_raw (nl := nl) (ep := ep) hb parts hpre hv chunks hjoin
+  have h2 := decode_chunks_full_raw (nl := nl) (ep := ep) hb parts hpre hv [bodyOfR nl bnd ep pr lead parts] (by simp)
+  exact ⟨h1.1, by rw [h1.2, h2.2], h1.2⟩
+
+/-- **formParse_read_independent, arbitrary header blocks** -/
+theorem formParse_read_independent_raw {nl : Nl} {bnd : Bytes} (hb : BoundaryOk bnd) (ep pr : Bytes)
+    (lead : Bool) (parts : List RawPart) (hpre : PreFreeR nl bnd ep pr lead parts)
+    (hv : ∀ p ∈ parts, RawOk nl bnd p) (bufSize : Nat) (sched : List Nat) :
+    formParse bnd none none bufSize sched (bodyOfR nl bnd ep pr lead parts) =
+      formOfParts ([], []) (parts.map RawPart.out) :=
+  formParse_raw (nl := nl) (ep := ep) hb parts hpre hv bufSize sched
+
+/-- any two buffer sizes / read schedules agree -/
+theorem formParse_bufsize_irrelevant_raw {nl : Nl} {bnd : Bytes} (hb : BoundaryOk bnd) (ep pr : Bytes)
+    (lead : Bool) (parts : List RawPart) (hpre : PreFreeR nl bnd ep pr lead parts)
+    (hv : ∀ p ∈ parts, RawOk nl bnd p) (b1 b2 : Nat) (s1 s2 : List Nat) :
+    formParse bnd none none b1 s1 (bodyOfR nl bnd ep pr lead parts) =
+      formParse bnd none none b2 s2 (bodyOfR nl bnd ep pr lead parts) := by
+  rw [formParse_read_independent_raw hb ep pr lead parts hpre hv,
+    formParse_read_independent_raw hb ep pr lead parts hpre hv]
+
+/-- the parts with `Name: value` header lines are raw parts: same body, same side conditions, same
+result -/
+theorem validPart_is_raw {nl : Nl} {bnd : Bytes} (ep pr : Bytes) (lead : Bool) (parts : List Part)
+    (hv : ∀ p ∈ parts, ValidPart nl bnd p) :
+    (∀ q ∈ parts.map (rawOf nl), RawOk nl bnd q) ∧
+    (parts.map (rawOf nl)).map RawPart.out = parts.map decodedPart ∧
+    bodyOfR nl bnd ep pr lead (parts.map (rawOf nl)) = bodyOf nl bnd ep pr lead parts ∧
+    (PreFree nl bnd ep pr lead parts → PreFreeR nl bnd ep pr lead (parts.map (rawOf nl))) :=
+  ⟨rawOk_map hv, map_rawOf_out parts hv, bodyOf_raw bnd parts, preFree_raw⟩
+
+/-- a preamble that does not contain `--boundary` is admissible in front of raw parts too -/
+theorem preOk_preFreeR {nl : Nl} {bnd : Bytes} (hb : BoundaryOk bnd) (ep pr : Bytes) (lead : Bool)
+    (parts : List RawPart) (hpre : PreOk nl bnd pr lead) : PreFreeR nl bnd ep pr lead parts :=
+  preFreeR_of_preOk hb parts hpre
+
+/-- non-vacuity: a header block with a lower-case name, no space after the colon, a folded
+continuation line, white space around a name and a value, LF / CR / CRLF line breaks mixed inside the
+block and Content-Type after Content-Disposition is admissible under all three conventions, and the
+decoder reports the expected part; blocks that start with white space, contain a blank line, lack
+Content-Disposition or end in CR (which would merge with a CRLF / CR blank line) are not -/
+example :
+    let r : RawPart := ⟨str "content-disposition:form-data;\r\n\tname=a\nX-Foo :  bar \rContent-Type: text/plain", str "v"⟩
+    RawOk .crlf (str "b") r ∧ RawOk .lf (str "b") r ∧ RawOk .cr (str "b") r ∧
+    r.out = ⟨false, some ['a'], none,
+      [("content-disposition".toList, "form-data; name=a".toList), ("X-Foo".toList, "bar".toList),
+       ("Content-Type".toList, "text/plain".toList)], str "v"⟩ ∧
+    RawOk .crlf (str "b") ⟨str "Content-Disposition: form-data", []⟩ ∧
+    ¬ RawOk .crlf (str "b") ⟨str " Content-Disposition: form-data; name=a", []⟩ ∧
+    ¬ RawOk .crlf (str "b") ⟨str "Content-Disposition: form-data; name=a\r\n\r\nX: y", []⟩ ∧
+    ¬ RawOk .crlf (str "b") ⟨str "Content-Type: text/plain", []⟩ ∧
+    ¬ RawOk .cr (str "b") ⟨str "Content-Disposition: form-data; name=a\r", []⟩ := by
+  decide +kernel
+
+/-- sanity: such a body through the form parser, two bytes at a time, with a preamble that contains a
+near-delimiter -/
+example :
+    (formParse (str "b") none none 2 []
+      (bodyOfR .crlf (str "b") (str "\r\n") (str "x --bz") true
+        [⟨str "content-disposition:form-data;\r\n\tname=a\nX-Foo :  bar \rContent-Type: text/plain", str "v"⟩,
+         ⟨str "Content-Disposition: form-data; name=f; filename=\"q\"", [0, 255]⟩])).toOption =
+    some ([(some ['a'], ['v'])],
+          [⟨some ['f'], ['q'], [("Content-Disposition".toList, "form-data; name=f; filename=\"q\"".toList)],
+            [0, 255]⟩]) := by
+  decide +kernel
+
 /-
 OPEN (P1) — stated, not proved:
 
--- OPEN: decode_chunk_independent for the rest of the property's grammar: a preamble that contains
--- `--boundary` without being a delimiter, and header blocks other than `Name: value` lines
--- (continuations, odd white space, header lines broken with a line break other than the delimiter's).
--- Bodies that mix line-break conventions between delimiter lines are not covered either.
+-- OPEN: decode_chunk_independent for the rest of the property's grammar: bodies that mix line-break
+-- conventions between delimiter lines, header blocks that start with white space, and transport
+-- padding after `--boundary` on delimiter lines between parts (the first delimiter's padding is F01c).
 -- The unrestricted statement is false (`decode_chunk_independent_full_false`, finding F01c: transport
 -- padding on the first delimiter).
 
